@@ -117,7 +117,7 @@ META = {
         "technique": "property-based testing (rapid), fault injection at generated positions, end-state oracle judged at quiescence",
     },
     "C05": {
-        "text": "Generated scripts of traffic, write/checkpoint faults, pauses and crash points (before the write, between acknowledgement and checkpoint, after the checkpoint) against the full in-process service, with a monitor evaluated at every checkpoint write (never ahead of what the downstream accepted) and an end-state oracle (every row arrives at least once after resume / restart). Found the resume time filter defect (fixed, see C06) and the dead shared loops (fixed, see C11). The never-ahead monitor also found the known finding F-C05-resume-without-checkpoint (a channel without persisted checkpoint is reopened at the latest position).",
+        "text": "Generated scripts of traffic, write/checkpoint faults, pauses and crash points (before the write, between acknowledgement and checkpoint, after the checkpoint) against the full in-process service, with a monitor evaluated at every checkpoint write (never ahead of what the downstream accepted) and an end-state oracle (every row arrives at least once after resume / restart). Found the resume time filter defect (fixed, see C06) and the dead shared loops (fixed, see C11). The never-ahead monitor also found the known finding F-C05-resume-without-checkpoint (a channel without persisted checkpoint is reopened at the latest position). TestC05_Drop covers the frozen clause (record of a collection whose drop was replayed stays byte-identical under traffic, pause/resume and restart) and found the op-position written into a frozen record (fix b2b15e2).",
         "design_ref": "DESIGN.md section 4 C05",
         "note": "Crash is simulated inside the test process by fencing the incarnation's store and source streams at the chosen point; a child-process SUT was designed but not built. End-state verdicts are only taken at quiescence.",
         "technique": "property-based testing (rapid), generated fault/crash scripts, history invariant (monitor at every checkpoint write) + end-state oracle",
